@@ -296,6 +296,22 @@ func main() {
 			r.Sample(map[string]any{"family": family, "text": text})
 		}
 	})
+	// long specifications of simple shape (depth- and length-related limits)
+	var sizes []int
+	for n := 1; n <= 40; n++ {
+		sizes = append(sizes, n)
+	}
+	sizes = append(sizes, 64, 65, 100, 128, 129, 300)
+	if !r.Quick() {
+		sizes = append(sizes, 1000, 3000)
+	}
+	ks := 0
+	ebnfref.Scaling(sizes, func(text, family string, n int) {
+		ks++
+		if r.MineIdx(ks) && !r.Expired() {
+			checkText(r, text, "scaling_"+family, false)
+		}
+	})
 	r.Assume("expected callback order = post-order traversal of the reference parse tree (ref/ebnfref.ParseTokens), which is the reverse rightmost derivation under the documented disambiguation")
 	r.Finish()
 }
